@@ -241,6 +241,8 @@ def forked_run(wl: dict, cache_dir: Path | None, logpath: str, kill: dict | None
                     pplan.seed = int(ls.get("seed", 0))
                     pplan.timeout_tasks = tuple(ls.get("timeouts", ()))
                     pplan.kill_at_yield = int(kill.get("at", -1)) if kill.get("kind") == "yield" else -1
+                    pplan.script = ls.get("script")
+                    pplan.tparams = ls.get("tparams")
                 simpool.install(pplan)
             out: dict
             crashfs.arm(plan)
@@ -262,6 +264,10 @@ def forked_run(wl: dict, cache_dir: Path | None, logpath: str, kill: dict | None
                 out["timed_out"] = list(pplan.timed_out)
                 out["max_inflight"] = max([r.get("max_inflight", 0) for r in pplan.record if r.get("lockstep")] or [0])
                 out["schedule"] = digest_of([r.get("schedule") for r in pplan.record if r.get("lockstep")])
+                first = next((r for r in pplan.record if r.get("lockstep")), None)
+                if first is not None:
+                    out["script"] = first["choices"]
+                    out["tparams"] = first["tparams"]
             with os.fdopen(w, "wb") as f:
                 pickle.dump(out, f)
         except BaseException:  # noqa: BLE001
@@ -443,12 +449,15 @@ class History:
         first = None
         for j in range(int(ls.get("tries", 1))):
             lsj = {"seed": int(ls["seed"]) + 7919 * j, "timeouts": list(ls.get("timeouts", []))}
+            if ls.get("script") is not None:
+                lsj.update(script=list(ls["script"]), tparams=dict(ls.get("tparams") or {}))
             nv = len(self.violations)
             out = self._lockstep_one(lsj, j)
             if first is None:
                 first = out
             if len(self.violations) > nv:
-                self.wl["lockstep"] = dict(lsj, tries=1)  # the replay file names the failing schedule
+                # the replay file holds the failing schedule itself (not only its seed), so that it can be shrunk
+                self.wl["lockstep"] = dict(lsj, tries=1, **({"script": out["script"], "tparams": out.get("tparams", {})} if out.get("script") is not None else {}))
                 break
         return first
 
@@ -711,6 +720,15 @@ class CrashMachine(Machine):
                     if k.get("lockstep"):
                         k["lockstep"]["timeouts"] = list(t)
                 yield new
+        sc = (wl.get("lockstep") or {}).get("script")
+        if sc:
+            # shorter explicit schedules (what is cut off falls back to "first candidate")
+            cuts = [sc[: len(sc) // 2], sc[:-1], sc[1:]] + [sc[:i] + sc[i + 1 :] for i in range(min(len(sc), 40))]
+            for c2 in cuts:
+                if c2 != sc:
+                    new = copy.deepcopy(case)
+                    new["workload"]["lockstep"]["script"] = c2
+                    yield new
         ks = case.get("kills") or []
         if len(ks) > 1:
             for i in range(len(ks)):
